@@ -57,6 +57,9 @@ def run_patch(pid, mod, patch, repo=None, keep=False, header=None):
             extra = [o for o in viol if o.full_key not in known]
             return {'name': name, 'status': 'quiet' if not extra else 'false-alarm', 'what': meta['what'],
                     'expect': 'none', 'reported': sorted({o.full_key for o in extra})[:12]}
+        # a listed known finding is reported on every tree: it never counts as detecting the change
+        known = {k['key'] for k in engine.load_known() if k['status'] == 'known'}
+        viol = [o for o in viol if o.full_key not in known]
         hit = [o for o in viol if any(o.rule == e or o.rule.startswith(e) for e in expects)]
         return {'name': name, 'status': 'killed' if hit else 'missed', 'what': meta['what'],
                 'expect': meta['expect'], 'reported': sorted({o.full_key for o in viol})[:12]}
